@@ -291,7 +291,9 @@ func runWorldB(rc *RunCtx, prop string) *RunResult {
 				// its operations must still be there when the store write fails (first delivery only)
 				if w.useUnpub && w.curObs.Honest && w.curObs.Puts == 0 {
 					for _, op := range w.curObs.Included {
-						if w.unpubConfigured(op.Type) && !w.inUnpub(op) {
+						// (a retried request is byte-identical to its original: anchoring either of them legitimately
+						// removes an unpublished copy of "that request" - the oracle speaks about unique requests only)
+						if w.unpubConfigured(op.Type) && w.uniqueRequest(op) && !w.inUnpub(op) {
 							w.fail("C15", "store-failure/unpublished-removed", fmt.Sprintf("the store write of txn%d failed, yet the unpublished copy of op%d (%s) is already gone", w.curObs.Idx, op.ID, op.Type))
 						}
 					}
@@ -1013,6 +1015,18 @@ func (w *bWorld) inQueue(key string) bool {
 	}
 
 	return false
+}
+
+func (w *bWorld) uniqueRequest(op *bOp) bool {
+	n := 0
+
+	for _, o := range w.ops {
+		if o.Key == op.Key {
+			n++
+		}
+	}
+
+	return n == 1
 }
 
 func (w *bWorld) unpubConfigured(t operation.Type) bool {
